@@ -36,7 +36,7 @@ def gen(seed, tier):
         k = rng.choice(["plain", "plain", "logger", "logger", "standardiser", "buffer"])
         e = {"k": k}
         if k == "logger":
-            e["name"] = rng.choice([None, "verif.c16.a", "verif.c16.b", "verif.c16.%d" % i])
+            e["name"] = rng.choice([None, "verif.c16.a", "verif.c16.b", "verif.c16.%d" % i, ""])  # "" is the root logger
             e["level"] = rng.choice([1, 10, 20, 25, 50])
             e["message"] = rng.choice(TEMPLATES_OK)
         elif k == "standardiser":
@@ -53,7 +53,7 @@ def gen(seed, tier):
         if k == "reconf":
             # a Logger's name / level are plain attributes: changed between two writes, later
             # records go to the new logger at the new level
-            ops.append({"t": t, "k": k, "which": rng.randrange(6), "name": rng.choice(["keep", "verif.c16.a", "verif.c16.b", "verif.c16.renamed"]), "level": rng.choice(["keep", 10, 20, 30])})
+            ops.append({"t": t, "k": k, "which": rng.randrange(6), "name": rng.choice(["keep", "verif.c16.a", "verif.c16.b", "verif.c16.renamed", ""]), "level": rng.choice(["keep", 10, 20, 30])})
         elif k == "write":
             ops.append({"t": t, "k": k, "value": rng.choice(VALS)})
         elif k == "read":
@@ -111,8 +111,9 @@ def run(scenario, tape_values):
             if k == "plain":
                 target = PoolDecorator(target)
             elif k == "logger":
-                name = e.get("name") or type(target).__qualname__
+                name = e["name"] if e.get("name") is not None else type(target).__qualname__
                 prepare_logger(name)
+                name = name or "root"  # records emitted through logging.getLogger("") carry the name "root"
                 kw = {"name": e.get("name"), "level": e["level"]}
                 if e.get("message") is not None:
                     kw["message"] = e["message"]
@@ -250,7 +251,7 @@ def run(scenario, tape_values):
         name, level = stack[i]["_resolved_name"], stack[i]["level"]
         for rc in reconfs:
             if rc["idx"] == i and rc["seq"] < seq:
-                name = rc["name"] if rc["name"] is not None else name
+                name = (rc["name"] or "root") if rc["name"] is not None else name
                 level = rc["level"] if rc["level"] is not None else level
         return name, level
 
